@@ -5,6 +5,7 @@
 package typed
 
 import (
+	"encoding/hex"
 	"fmt"
 	"math"
 	"reflect"
@@ -453,6 +454,13 @@ func fillLeaf(rv reflect.Value, l ref.Leaf, v ref.V) {
 	case reflect.Float64:
 		*(*uint64)(rv.Addr().UnsafePointer()) = uint64(v.I)
 	case reflect.String:
+		if l.ID == "uuid" {
+			// a string field mapped to the UUID logical type holds the textual form
+			b := make([]byte, 16)
+			copy(b, v.B)
+			rv.SetString(fmt.Sprintf("%x-%x-%x-%x-%x", b[0:4], b[4:6], b[6:8], b[8:10], b[10:16]))
+			return
+		}
 		rv.SetString(string(v.B))
 	case reflect.Slice:
 		if l.Phys == ref.FLBA && NilForZeroFixed {
@@ -570,6 +578,13 @@ func extractLeaf(rv reflect.Value, l ref.Leaf) ref.V {
 	case reflect.Float64:
 		return ref.V{I: int64(math.Float64bits(rv.Float()))}
 	case reflect.String:
+		if l.ID == "uuid" {
+			b, err := hex.DecodeString(strings.ReplaceAll(rv.String(), "-", ""))
+			if err != nil || len(b) != 16 {
+				b = make([]byte, 16)
+			}
+			return ref.V{B: b}
+		}
 		return ref.V{B: []byte(rv.String())}
 	case reflect.Slice:
 		if l.Phys == ref.FLBA && rv.Len() == 0 {
